@@ -28,8 +28,8 @@ LEVEL_NOTE = ("Trusted: z3; the SInt/SReal scalar model (floats as exact reals) 
 
 
 def bounds(tier):
-    return {"max_windows_K": 6 if tier == "quick" else 12, "ns_max": 10 ** 6, "nswin_max": 10 ** 5,
-            "splicing_overlaps": [0, 2, 4, 8] if tier == "quick" else [0, 1, 2, 3, 4, 6, 8, 12]}
+    return {"max_windows_K": 6 if tier == "quick" else 24, "ns_max": 10 ** 6, "nswin_max": 10 ** 5,
+            "splicing_overlaps": [0, 2, 4, 8] if tier == "quick" else [0, 1, 2, 3, 4, 5, 6, 8, 12, 16]}
 
 
 def setup():
@@ -183,7 +183,7 @@ def cases(tier):
     K = bounds(tier)["max_windows_K"]
     cs = [Case("firstlast", "case_firstlast", {"K": K}), Case("valid", "case_valid", {"K": K})]
     for ov in bounds(tier)["splicing_overlaps"]:
-        cs.append(Case(f"splicing_ov{ov}", "case_splicing", {"K": min(K, 6), "overlap": ov}))
+        cs.append(Case(f"splicing_ov{ov}", "case_splicing", {"K": min(K, 6 if tier == "quick" else 10), "overlap": ov}, timeout_s=3000))
     b = (6, 4) if tier == "quick" else (9, 6)     # lengths below 2^b[0], windows below 2^b[1]
     cs.append(Case(f"nwin_ieee_{b[0]}_{b[1]}", "case_nwin_ieee", {"bits_ns": b[0], "bits_win": b[1]}, timeout_s=3000))
     return cs
